@@ -135,9 +135,13 @@ func (f *ReadFromString) Call(s *slip.Scope, args slip.List, depth int) slip.Obj
 		buf = []byte(ss)
 	}
 	code, pos := slip.ReadOne(buf, s)
+	pos += start
 	// ReadOne returns a byte offset into buf while start and the position
 	// returned are character indices.
-	pos = utf8.RuneCount(buf[:pos]) + start
+	charPos := func() slip.Fixnum {
+		off := min(max(pos-start, 0), len(buf))
+		return slip.Fixnum(start + utf8.RuneCount(buf[:off]))
+	}
 	if 0 < len(code) {
 		if !pw {
 		space:
@@ -149,10 +153,10 @@ func (f *ReadFromString) Call(s *slip.Scope, args slip.List, depth int) slip.Obj
 				}
 			}
 		}
-		return slip.Values{code[0], slip.Fixnum(pos)}
+		return slip.Values{code[0], charPos()}
 	}
 	if eofp {
 		panic(fmt.Sprintf("end of file on string %q", buf))
 	}
-	return slip.Values{eofv, slip.Fixnum(pos)}
+	return slip.Values{eofv, charPos()}
 }
